@@ -369,6 +369,19 @@ asyncio.run(body())
 '''
 
 MODULES_ON = {
+    # a user module that is never at a prompt while it is being created (`next` over the exec); a thread whose first frame is one of
+    # its functions; later the main thread calls the same function: whether a frame is accepted depends on who is calling, not on the
+    # code object alone
+    'user-module-thread-first': '''import types, threading
+src = "def f(x):\\n    y = x + 1\\n    return y\\n"
+mod = types.ModuleType('c05_user_mod')
+exec(compile(src, 'c05_user_mod.py', 'exec'), mod.__dict__)
+t = threading.Thread(target=mod.f, args=(1,))
+t.start()
+t.join()
+z = mod.f(2)
+w = mod.f(3)
+''',
     'stdlib': '''import json, textwrap, string
 def f(x):
     t = string.capwords('ab cd')
@@ -468,6 +481,10 @@ def gen_specs(rng: random.Random, tier: str) -> list[dict]:
         add(TASKS_WITH_EXCEPTIONS, pol, 'tasks-exceptions', timeout=40)
     for pol in ALL:
         add(TASK_NEXT_WITNESS, pol, 'task-next-witness', timeout=40)
+    for k in (4, 5, 6, 7, 8, 9):
+        # the main thread answers `next` k times (creating the module without ever stepping into it) and `step` from then on
+        add(MODULES_ON['user-module-thread-first'], {'kind': 'by_trace', 'main': {'kind': 'seq', 'commands': ['next'] * k, 'then': 'step'},
+                                                     'others': {'kind': 'all', 'command': 'step'}}, 'modules-user-module', tm=True, timeout=40)
     # M: module tracing on, descending into the standard library
     for name, src in MODULES_ON.items():
         for pol in ALL + [mix(s, [MIX_A, MIX_B, MIX_C][s % 3]) for s in range(9 if quick else 90)]:
